@@ -39,6 +39,16 @@ METHODS = {
     ("mat", "lu_decomp_in_place", 0): dict(g="lu_decomp {0}", ret=("tuple", ["usize", "mat"]), fallible=True, out=["recv", "ret"]),
 }
 
+METHODS.update({
+    # Model/Poly.v
+    ("poly", "degree", 0): dict(g="pdegree {0}", ret=("opt", "usize")),
+    ("poly", "size", 0): dict(g="length {0}", ret="usize"),
+    ("poly", "eval", 1): dict(g="peval {0} {1}", ret="elem", fallible=True, args=["elem"]),
+    ("poly", "derivative", 0): dict(g="pderiv {0}", ret="poly", fallible=True),
+    ("poly", "derivative_n", 1): dict(g="pderiv_n {0} {1}", ret="poly", fallible=True, args=["usize"]),
+    ("index", "poly"): dict(g="pindex {0} {1}", ret="elem", fallible=True),
+})
+
 # PATHS[(path, number of args)]
 PATHS = {
     ("T::zero", 0): dict(g="(@zero A)", ret="elem", atom=True),
@@ -54,6 +64,8 @@ PATHS = {
     ("Self::create", 1): dict(g="{0}", ret="vec", atom=True, args=["vec"]),
     ("Matrix::new", 3): dict(g="mat_new {0} {1} {2}", ret="mat", args=["usize", "usize", "elem"]),
     ("Matrix::eye", 1): dict(g="eye {0}", ret="mat", fallible=True, args=["usize"]),
+    ("Polynomial::empty", 0): dict(g="(@nil (T A))", ret="poly", atom=True),
+    ("Polynomial::new", 1): dict(g="{0}", ret="poly", atom=True, args=["vec"]),
     ("mem::swap", 2): dict(special="swap"),
     ("std::mem::swap", 2): dict(special="swap"),
 }
@@ -61,8 +73,12 @@ PATHS = {
 # operators between non-scalar operands
 BINOPS = {
     ("*", "mat", "vec"): dict(g="multiply {0} {1}", ret="vec", fallible=True),
+    ("+", "poly", "poly"): dict(g="padd {0} {1}", ret="poly"),
+    ("-", "poly", "poly"): dict(g="psub {0} {1}", ret="poly"),
+    ("*", "poly", "poly"): dict(g="pmul {0} {1}", ret="poly"),
+    ("*", "poly", "elem"): dict(g="pscale {0} {1}", ret="poly"),
 }
-UNOPS = {}
+UNOPS = {("-", "poly"): dict(g="pneg {0}", ret="poly")}
 
 # FIELDS[(type, field)] = (format of the read, type);  SETFIELDS[(type, field)] = format of the updated owner ({0}=owner, {1}=value)
 FIELDS = {
@@ -70,12 +86,14 @@ FIELDS = {
     ("mat", "mat"): ("(buf {0})", "vec"),
     ("mat", "rows"): ("(rows {0})", "usize"),
     ("mat", "cols"): ("(cols {0})", "usize"),
+    ("poly", "coeffs"): ("{0}", "vec"),
 }
 SETFIELDS = {
     ("vec", "vec"): "{1}",
     ("mat", "mat"): "(mkM {1} (rows {0}) (cols {0}))",
     ("mat", "rows"): "(mkM (buf {0}) {1} (cols {0}))",
     ("mat", "cols"): "(mkM (buf {0}) (rows {0}) {1})",
+    ("poly", "coeffs"): "{1}",
 }
 STRUCTS = {
     "Vector": (["vec"], "{0}", "vec"),
@@ -153,4 +171,19 @@ MODULES["MatArith"] = dict(
         dict(name="msub_assign_scalar", file=M_ARI, impl=r"SubAssign<T>forMatrix<T>$", fn="sub_assign"),
         dict(name="mat_mul", file=M_ARI, impl=r"Mul<&Matrix<T>>for&Matrix<T>$", fn="mul"),
         dict(name="mat_vec_mul", file=M_ARI, impl=r"Mul<&Vector<T>>for&Matrix<T>$", fn="mul"),
+    ])
+
+P_MOD, P_ARI = "src/polynomial/mod.rs", "src/polynomial/arithmetic.rs"
+MODULES["Poly"] = dict(
+    imports="From OV Require Import Base.Panic Base.Arith Model.Poly gen.SrcPrelude.",
+    funcs=[
+        dict(name="peval", file=P_MOD, impl=r"^<T>Polynomial<T>$", fn="eval"),
+        dict(name="pderiv", file=P_MOD, impl=r"^<T:Clone\+Copy\+Zero\+Mul<Output=T>\+Add<Output=T>>Polynomial<T>$", fn="derivative"),
+        dict(name="pderiv_n", file=P_MOD, impl=r"^<T:Clone\+Copy\+Zero\+Mul<Output=T>\+Add<Output=T>>Polynomial<T>$", fn="derivative_n"),
+        dict(name="pderiv_at", file=P_MOD, impl=r"^<T:Clone\+Copy\+Zero\+Mul<Output=T>\+Add<Output=T>>Polynomial<T>$", fn="derivative_at"),
+        dict(name="padd", file=P_ARI, impl=r"Add<&Polynomial<T>>for&Polynomial<T>$", fn="add"),
+        dict(name="pneg", file=P_ARI, impl=r"Negfor&Polynomial<T>$", fn="neg"),
+        dict(name="psub", file=P_ARI, impl=r"Sub<&Polynomial<T>>for&Polynomial<T>$", fn="sub"),
+        dict(name="pmul", file=P_ARI, impl=r"Mul<&Polynomial<T>>for&Polynomial<T>$", fn="mul"),
+        dict(name="pscale", file=P_ARI, impl=r"Mul<T>for&Polynomial<T>$", fn="mul"),
     ])
